@@ -216,6 +216,14 @@ pub fn set_phase(p: u8) {
     });
 }
 
+/// scheduler state of a thread of this process ('R' running or runnable, 'S' / 'D' sleeping): a thread that is merely
+/// starved by other load is runnable, a deadlocked one sleeps
+pub fn thread_state(ktid: i64) -> Option<char> {
+    let s = std::fs::read_to_string(format!("/proc/self/task/{}/stat", ktid)).ok()?;
+    let p = s.rfind(')')?;
+    s[p + 1..].trim_start().chars().next()
+}
+
 pub fn thread_cpu_ns(tid: libc::pthread_t) -> Option<u64> {
     let mut cid: libc::clockid_t = 0;
     if unsafe { libc::pthread_getcpuclockid(tid, &mut cid) } != 0 {
